@@ -71,7 +71,7 @@ CHECKS['C03'] = {
     'unproved': ['evaluate arms FunctionCall (all functions), TypeConversion, Aggregate', 'parser_tree_converter lowering, projection naming'],
 }
 CHECKS['C09'] = {
-    'verus_units': ['eval', 'follow', 'select', 'engine', 'extract', 'parser', 'executor', 'aggregate', 'aggdispatch', 'join', 'joinload', 'mapping'],
+    'verus_units': ['eval', 'follow', 'select', 'engine', 'extract', 'parser', 'executor', 'aggregate', 'aggdispatch', 'aggresult', 'join', 'joinload', 'mapping'],
     'only_safety': True,
     'clause_prefixes': ['c09'],
     'technique': 'contract-based deductive verification (Verus): absence of arithmetic overflow, division by zero, failed callee preconditions (unwrap, indexing, unreachable!) in every extracted function',
@@ -84,7 +84,7 @@ CHECKS['C09'] = {
 }
 
 CHECKS['C08'] = {
-    'verus_units': ['select'],
+    'verus_units': ['select', 'aggresult'],
     'kani': {
         'sets': ['value_order'],
         'quick': ['float_eq_implies_same_hash', 'float_eq_reflexive', 'float_cmp_agrees_with_eq', 'value_laws_float_float', 'value_laws_int_int', 'value_laws_null_null', 'value_laws_bool_bool'],
@@ -93,12 +93,12 @@ CHECKS['C08'] = {
     },
     'clause_prefixes': ['c08'],
     'technique': 'contract-based deductive verification (Verus): DistinctValues::add and the DISTINCT branch of SelectExecutionEngine::execute extracted from /repo, set membership modelled by Value equality classes',
-    'claim': 'Proof for all rows and histories of one engine that, on the non-aggregate path, DistinctValues::add returns true exactly for a tuple with no value-equal predecessor and remembers exactly that tuple, and that SelectExecutionEngine::execute emits the projected row iff WHERE is true and (not DISTINCT or first occurrence), otherwise leaves the memory unchanged; surviving rows are emitted unchanged. The aggregate path (execute_result) is NOT covered.',
-    'note': 'Trusted: FnvHashSet<Vec<Value>> behaves as a set under Value\'s Eq/Hash (stand-in VRowSet; hash/eq consistency is C16), Vec<Value>::clone copies. Not covered: DISTINCT in AggregateExecutionEngine::execute_result (outside the accepted subset: nested BTreeMap/HashMap iteration).',
+    'claim': 'Proof for all rows and histories of one engine that, on the non-aggregate path, DistinctValues::add returns true exactly for a tuple with no value-equal predecessor and remembers exactly that tuple, and that SelectExecutionEngine::execute emits the projected row iff WHERE is true and (not DISTINCT or first occurrence), otherwise leaves the memory unchanged; surviving rows are emitted unchanged. Aggregate path (unit aggresult): the row loop of execute_result is proved to keep, in group order, exactly the rows that HAVING accepts and - with DISTINCT - whose tuple does not equal an EARLIER KEPT row of the same table (fresh memory per table), with or without HAVING; accept_group (HAVING) and extract_result_rows_by_column are stand-ins there.',
+    'note': 'Trusted: FnvHashSet<Vec<Value>> behaves as a set under Value\'s Eq/Hash (stand-in VRowSet; hash/eq consistency is C16), Vec<Value>::clone copies. In execute_result the PERCENTILE refresh loop (nested iter_mut), the group-key mapping, extract_result_rows_by_column and accept_group are stand-ins (assumed functions of the aggregation state).',
     'level': 'proof',
     'explanation': 'The abstract DISTINCT memory is the sequence of remembered tuples; membership is pointwise value_eq. The contract of execute is stated over that view and over sem_eval of the projections.',
     'trusted': COMMON_TRUST + ['fnv::FnvHashSet contains/insert as a mathematical set over Eq classes of Vec<Value> (assumed; relies on C16 laws)'],
-    'unproved': ['AggregateExecutionEngine::execute_result DISTINCT handling (with and without HAVING)'],
+    'unproved': ['execute_result: percentile refresh loop, extract_result_rows_by_column, accept_group'],
 }
 
 CHECKS['C07'] = {
@@ -205,10 +205,10 @@ CHECKS['C19'] = {
 }
 
 CHECKS['C04'] = {
-    'verus_units': ['aggregate', 'aggdispatch'],
+    'verus_units': ['aggregate', 'aggdispatch', 'aggresult'],
     'clause_prefixes': ['c04', 'value.modify', 'value.map-numeric', 'value.default'],
     'technique': 'contract-based deductive verification (Verus): GroupAggregator::default / update (all arms) / is_null, ensure_sum_fits and Value::modify_same_type_numeric_nullable / map_numeric extracted from /repo against step functions written from the property text',
-    'claim': 'Proof (fold kernel and per-group dispatch) for all states and values that one update step of each running aggregate is exactly the documented step and that update_aggregate folds a row into the cell of ITS group and aggregate index only (get_group: an existing cell is returned as it is, the default is computed only for a missing cell; COUNT / COUNT(DISTINCT) add one exactly for qualifying rows; MIN / MAX by value order; NULL arguments never wipe an accumulated value; ARRAY_AGG appends in arrival order; STRING_AGG joins with the delimiter); execute_update leaves the state untouched for rows that fail WHERE. Step level: SUM / AVG / STDDEV-VARIANCE bookkeeping add the value exactly or report an error (never wrap), the first value only initialises, AVG shows sum/count, PERCENTILE collects every value, BOOL_AND / BOOL_OR combine two-valued, COUNT(DISTINCT) counts a value only at its first occurrence; the unimplemented!() arms of default are unreachable under its precondition. NOT decided: update_aggregates (group key evaluation, loop over the aggregates, HAVING aggregates), the assembly of the result table (execute_result, extract_result_rows_by_column, accept_group) - "one row per group, no cell in another group\'s row", HAVING and the PERCENTILE index are outside the claim.',
+    'claim': 'Proof (fold kernel and per-group dispatch) for all states and values that one update step of each running aggregate is exactly the documented step and that update_aggregate folds a row into the cell of ITS group and aggregate index only (get_group: an existing cell is returned as it is, the default is computed only for a missing cell; COUNT / COUNT(DISTINCT) add one exactly for qualifying rows; MIN / MAX by value order; NULL arguments never wipe an accumulated value; ARRAY_AGG appends in arrival order; STRING_AGG joins with the delimiter); execute_update leaves the state untouched for rows that fail WHERE. Step level: SUM / AVG / STDDEV-VARIANCE bookkeeping add the value exactly or report an error (never wrap), the first value only initialises, AVG shows sum/count, PERCENTILE collects every value, BOOL_AND / BOOL_OR combine two-valued, COUNT(DISTINCT) counts a value only at its first occurrence; the unimplemented!() arms of default are unreachable under its precondition. Table assembly (unit aggresult): execute_result zips the value columns position by position into rows (no value from another position), under the stated assumption that the columns are rectangular - which COUNT over an all-NULL group violates (known finding). NOT decided: update_aggregates (group key evaluation, loop over the aggregates, HAVING aggregates), the column extraction ( extract_result_rows_by_column, accept_group) - "one row per group, no cell in another group\'s row", HAVING and the PERCENTILE index are outside the claim.',
     'note': 'Trusted: HashSet<Value> as a set under Value equality (VValueSet), f64 arithmetic and chrono Duration arithmetic as uninterpreted functions, the variance formula closure and the INTERVAL squaring closure are stubbed (assumed). Defects seen by reading only in the unreached code (column shift when an aggregate has no entry for a group, DISTINCT only under HAVING, PERCENTILE(1.0)) are recorded in DESIGN.md, not raised by this check.',
     'level': 'proof',
     'explanation': 'sum_step etc. are the semantic steps; C15 lemmas lift them to order-insensitivity.',
